@@ -18,7 +18,7 @@ CHECKS = {
     "C06": dict(
         level="model_checking",
         rule="full table method(8) x kind(2) x difference class(6) x child deleting(2) x still desired(2) x children(1-2) for composite and decorator; "
-             "non-trivial = the statement demands at least one write or an error for the case; x an undesired sibling of the same kind whose DELETE is refused (403): reported, and the other children are treated exactly as without it",
+             "non-trivial = the statement demands at least one write or an error for the case; x an undesired sibling of the same kind whose DELETE is refused (403): reported, and the other children are treated exactly as without it; difference class 'foreign item in a list the hook names and empties'",
         units=[
             dict(pkg=COMPOSITE, test="TestVerifC06", shards=dict(quick=4, thorough=8), budget=dict(quick=300, thorough=900)),
             dict(pkg=DECORATOR, test="TestVerifC06", shards=dict(quick=4, thorough=8), budget=dict(quick=300, thorough=900)),
@@ -28,7 +28,7 @@ CHECKS = {
     "C03": dict(
         level="model_checking",
         rule="parent scope(2) x declared child kinds(3 sets per scope) x generateSelector(2) x 2 (thorough: 3) slots each ranging over role(9 composite / 8 decorator) x namespace(2) x kind(declared + one undeclared); "
-             "one real sync per case; non-trivial = at least one object present in the cluster; every fifth non-trivial case is also run after a second controller on the same parent and child resources was started and stopped again (the informers this controller lists from must survive); role 'orphan in the cache, adopted by another parent on the server' (the adoption is refused; the object must never be shown to the hook)",
+             "one real sync per case; non-trivial = at least one object present in the cluster; every fifth non-trivial case is also run after a second controller on the same parent and child resources was started and stopped again (the informers this controller lists from must survive); role 'orphan in the cache, adopted by another parent on the server' (the adoption is refused; the object must never be shown to the hook); selector kinds: explicit matchLabels, generated, and negative-only (tier NotIn [canary]: selects objects without labels)",
         units=[
             dict(pkg=COMPOSITE, test="TestVerifC03", shards=dict(quick=8, thorough=16), budget=dict(quick=300, thorough=3000)),
             dict(pkg=DECORATOR, test="TestVerifC03", shards=dict(quick=4, thorough=16), budget=dict(quick=300, thorough=1500)),
@@ -38,7 +38,7 @@ CHECKS = {
     "C16": dict(
         level="model_checking",
         rule="target (status subresource(2) x labels k1,k2 (6) x annotations (6) x status(2) x foreign finalizer(2)) x response (label map over k1,k3[,k2 thorough] in {unnamed,value,null} x annotation map likewise x status {null,equal,different}) x mode {no finalize hook, finalize hook+live, finalizing, finalizing+finalized} x cache fresh/stale; "
-             "plus selector table: label selector kind(4) x annotation selector kind(4) x matches(2x2) x leftover finalizer(2) x finalize hook(2); every case is distinct and runs one real sync",
+             "plus selector table: label selector kind(4) x annotation selector kind(4) x matches(2x2) x leftover finalizer(2) x finalize hook(2); every case is distinct and runs one real sync; value alphabet includes the empty string (for the key the target lacks)",
         units=[
             dict(pkg=DECORATOR, test="TestVerifC16", shards=dict(quick=16, thorough=16), budget=dict(quick=600, thorough=3000)),
         ],
@@ -47,7 +47,7 @@ CHECKS = {
     "C14": dict(
         level="model_checking",
         rule="configuration (parent scope x generateSelector x ignoreStatusChanges x controller selector) x every event shape: parent add/delete/tombstone/6 update kinds/resync for matching, non-matching and finalizer-carrying parents; child add/update/delete/tombstone/resync for 15 roles (incl. a controller reference naming the parent kind in another API version); parents incl. one that carries the finalizer plus a garbage-collector finalizer while being deleted; with and without a finalize hook; related-object events (8); "
-             "each case = fresh world with the real Start()-installed handlers, one delivered event, queue compared with the decision table; in the related-object cases the customize hook answers 503 for two other parents that were never synced",
+             "each case = fresh world with the real Start()-installed handlers, one delivered event, queue compared with the decision table; in the related-object cases the customize hook answers 503 for two other parents that were never synced; a parent with a negative-only selector and an orphan without labels",
         units=[
             dict(pkg=COMPOSITE, test="TestVerifC14", shards=dict(quick=4, thorough=4), budget=dict(quick=300, thorough=600)),
             dict(pkg=DECORATOR, test="TestVerifC14", shards=dict(quick=4, thorough=4), budget=dict(quick=300, thorough=600)),
@@ -57,7 +57,7 @@ CHECKS = {
     "C11": dict(
         level="model_checking",
         rule="hook status(6) x live-vs-cached parent(5: same, spec edited, labels edited, recreated with new UID, gone) x existing status(3) x real conflicts caused between GET and PUT(0,1,2,4) x injected fault on the status path(5) x child reconciliation ok/fails; "
-             "plus the finalize path (finalized x live edited x foreign finalizer); every case distinct, one real sync each + the live status edited behind the cache (cached status already equal to the desired one); discovery lists a scale subresource after status for the parent kind; plus rolling parents: hook status shape(9: none, flat, nested, other conditions, an own Updated condition first / in the middle / alone, empty list) x rollout phase(4: on latest, progressing, waiting, completed) x method(2) x generateSelector(2), judged sync + repeat: stored status = hook status of the latest revision with only the Updated condition replaced/appended + observedGeneration, no write when nothing changes",
+             "plus the finalize path (finalized x live edited x foreign finalizer); every case distinct, one real sync each + the live status edited behind the cache (cached status already equal to the desired one); discovery lists a scale subresource after status for the parent kind; plus rolling parents: hook status shape(9: none, flat, nested, other conditions, an own Updated condition first / in the middle / alone, empty list) x rollout phase(4: on latest, progressing, waiting, completed) x method(2) x generateSelector(2), judged sync + repeat: stored status = hook status of the latest revision with only the Updated condition replaced/appended + observedGeneration, no write when nothing changes; plus a parent kind for which the server keeps no metadata.generation (observedGeneration 0)",
         units=[
             dict(pkg=COMPOSITE, test="TestVerifC11", shards=dict(quick=8, thorough=16), budget=dict(quick=300, thorough=900)),
             dict(pkg=COMPOSITE, test="TestVerifC11Roll", shards=dict(quick=2, thorough=2), budget=dict(quick=300, thorough=600)),
@@ -67,7 +67,7 @@ CHECKS = {
     "C13": dict(
         level="model_checking",
         rule="grammar: valid response with every node replaced by each of 12 JSON values (missing, null, true, 0, -1, 1e400, 2^63, string, [], [null], {}, {x:null}); singles exhaustively (thorough: all pairs for the base configurations) + 17 raw bodies + 6 non-200 statuses, "
-             "x mode(non-rolling, rolling, rolling with two live revisions, finalizing) x generateSelector x strict/loose, for composite sync/finalize, customize and decorator sync/finalize responses; every rejected or failing case is followed by the work-queue retry (same parent, same answer: no panic, rejected again, no writes) and, for customize answers, by a related-object event; every case distinct",
+             "x mode(non-rolling, rolling, rolling with two live revisions, finalizing) x generateSelector x strict/loose, for composite sync/finalize, customize and decorator sync/finalize responses; every rejected or failing case is followed by the work-queue retry (same parent, same answer: no panic, rejected again, no writes) and, for customize answers, by a related-object event; every case distinct; mode 4: a rollout that waits for a missing child of the latest revision while another child is still on the old one",
         units=[
             dict(pkg=COMPOSITE, test="TestVerifC13", shards=dict(quick=12, thorough=16), budget=dict(quick=600, thorough=3000)),
             dict(pkg=DECORATOR, test="TestVerifC13", shards=dict(quick=4, thorough=16), budget=dict(quick=600, thorough=3000)),
@@ -77,7 +77,7 @@ CHECKS = {
     "C19": dict(
         level="model_checking",
         rule="part 1: status(12 incl. transport error) x ETag header(3) x Retry-After(5) x body(6) x strict/loose x plain/etag executor x cache state(3) on the real webhookExecutor.Call; "
-             "part 2: ALL interleavings of 2 (thorough: 3 -> 1680 schedules) concurrent calls with the same cache key at the granularity enrich-headers / server decision / adjust+decode, x every pattern of server content changes x cache primed or empty + a cache primed with a body that carries an unknown field (stored with its ETag before decoding: strict mode must reject it again when a 304 brings it back); plus every sequence of 3 (thorough 4) calls through one ETag-enabled executor over 2 parents x 9 answers (200 with E1/E2/no ETag, 200+E1 with an unknown field, 304, 412, 412 carrying an ETag and a JSON body, 503 error page, 429) in loose and strict mode (2 x 18^3 = 11 664; thorough 209 952), compared call by call with a reference model; plus a production-built executor (real http.Client behind the metrics instrumentation, timeout 200 ms) against a server that stops talking before the headers / after the headers / in the middle of the body, with and without ETag, loose and strict: the call returns an error (waited for with a 60 s liveness watchdog) (per parent the (ETag, body) pair that last arrived together): If-None-Match sent, verdict, decoded body, cache content",
+             "part 2: ALL interleavings of 2 (thorough: 3 -> 1680 schedules) concurrent calls with the same cache key at the granularity enrich-headers / server decision / adjust+decode, x every pattern of server content changes x cache primed or empty + a cache primed with a body that carries an unknown field (stored with its ETag before decoding: strict mode must reject it again when a 304 brings it back); plus every sequence of 3 (thorough 4) calls through one ETag-enabled executor over 2 parents x 9 answers (200 with E1/E2/no ETag, 200+E1 with an unknown field, 304, 412, 412 carrying an ETag and a JSON body, 503 error page, 429) in loose and strict mode (2 x 18^3 = 11 664; thorough 209 952), compared call by call with a reference model; plus a production-built executor (real http.Client behind the metrics instrumentation, timeout 200 ms) against a server that stops talking before the headers / after the headers / in the middle of the body, with and without ETag, loose and strict: the call returns an error (waited for with a 60 s liveness watchdog) (per parent the (ETag, body) pair that last arrived together): If-None-Match sent, verdict, decoded body, cache content; delay asserted for every Retry-After form incl. absent / garbage (0)",
         units=[
             dict(pkg=HOOKS, test="TestVerifC19", shards=dict(quick=2, thorough=8), budget=dict(quick=300, thorough=900)),
             dict(pkg=HOOKS, test="TestVerifC19Seq", shards=dict(quick=4, thorough=16), budget=dict(quick=300, thorough=900)),
@@ -112,7 +112,7 @@ CHECKS = {
     "C10": dict(
         level="model_checking",
         rule="explicit-state BFS over parent life cycles per configuration (finalize hook none/keep/teardown/finalized-at-once x rolling x hook removed later): events create, relabel (match/unmatch), delete background/foreground/orphan, foreign finalizer add/drop, spec edit, deliverAll, gc, reconfigure, sync, sync with a caused conflict / injected 500 on the finalizer write; "
-             "two roots (empty cluster; steady parent with children); state = canonical store + caches + staleness + one-shot budgets; monitors F1-F8 on every sync transition (F8: in a fault-free sync on a fresh cache in which every finalize answer said finalized:true the finalizer does come off); finalize programs also include per-revision answers (finalized only for the edited template) with children dropped ('split') or kept ('split-keep'): F4 holds a finalized:false answer against the removal when the revision it was given for is still alive after the sync",
+             "two roots (empty cluster; steady parent with children); state = canonical store + caches + staleness + one-shot budgets; monitors F1-F8 on every sync transition (F8: in a fault-free sync on a fresh cache in which every finalize answer said finalized:true the finalizer does come off); finalize programs also include per-revision answers (finalized only for the edited template) with children dropped ('split') or kept ('split-keep'): F4 holds a finalized:false answer against the removal when the revision it was given for is still alive after the sync; in the rolling configurations 'relabel' removes the parent's labels altogether",
         units=[
             dict(pkg=COMPOSITE, test="TestVerifC10", shards=dict(quick=15, thorough=15), budget=dict(quick=240, thorough=3000)),
             dict(pkg=DECORATOR, test="TestVerifC10", shards=dict(quick=7, thorough=7), budget=dict(quick=240, thorough=3000)),
@@ -136,7 +136,7 @@ CHECKS = {
     "C08": dict(
         level="model_checking",
         rule="all fair rollouts: children n=1..3 (thorough 4) x parent/child scope (namespaced/namespaced, cluster/namespaced, cluster/cluster) x RollingInPlace/RollingRecreate x status checks on/off x generateSelector on/off x the sync index (-1..3n+4) at which a second spec change arrives; "
-             "fair environment after every sync (caches delivered, GC, every child healthy and observed); completion within 2n+6 / 3n+6 syncs; first change template or template+scale-down, second change template / scale-down / scale-up, Updated=True, exactly one ControllerRevision; never 'missing child' for a cached child; plus two rolling child kinds whose children share names (n=1..2, thorough 3), the second kind dropped / brought back by a revisioned field before or during a template rollout (first change tpl / tpl+drop / drop, second change tpl / drop / tpl+drop / add / scale-down at every sync index); the history search also fires syncs whose first / second ControllerRevision write is refused (500)",
+             "fair environment after every sync (caches delivered, GC, every child healthy and observed); completion within 2n+6 / 3n+6 syncs; first change template or template+scale-down, second change template / scale-down / scale-up, Updated=True, exactly one ControllerRevision; never 'missing child' for a cached child; plus two rolling child kinds whose children share names (n=1..2, thorough 3), the second kind dropped / brought back by a revisioned field before or during a template rollout (first change tpl / tpl+drop / drop, second change tpl / drop / tpl+drop / add / scale-down at every sync index); the history search also fires syncs whose first / second ControllerRevision write is refused (500); the children's controller reports observedGeneration = generation / 0 / nothing",
         units=[
             dict(pkg=COMPOSITE, test="TestVerifC08", shards=dict(quick=8, thorough=16), budget=dict(quick=300, thorough=1200)),
             dict(pkg=COMPOSITE, test="TestVerifC08Hist", shards=dict(quick=8, thorough=16), budget=dict(quick=600, thorough=3000)),
@@ -146,7 +146,7 @@ CHECKS = {
     "C07": dict(
         level="model_checking",
         rule="rollout states built directly in the cluster: per child (revision assignment: unclaimed / v1..latest) x (content: missing / v1..latest) x (health: healthy, Ready=False, no status, stale observedGeneration, wrong reason), n=1..2 children (thorough: 3 with three health values), "
-             "x method(2) x status checks(4: none, type, +status, +reason) x field paths (default; custom; custom + non-revisioned field changed) x 2 or 3 live revisions x latest revision exists or not x generateSelector x hook with its own Updated condition; one real sync from every state, clauses M0-M5 + states in which an older revision also claims a child that only its own view of the parent desires (tail of a scale-down), existing or not: M6 = claimed by no revision afterwards, never written, deleted if present",
+             "x method(2) x status checks(4: none, type, +status, +reason) x field paths (default; custom; custom + non-revisioned field changed) x 2 or 3 live revisions x latest revision exists or not x generateSelector x hook with its own Updated condition; one real sync from every state, clauses M0-M5 + states in which an older revision also claims a child that only its own view of the parent desires (tail of a scale-down), existing or not: M6 = claimed by no revision afterwards, never written, deleted if present; configuration with an empty revisionHistory block (= default)",
         units=[
             dict(pkg=COMPOSITE, test="TestVerifC07", shards=dict(quick=16, thorough=16), budget=dict(quick=600, thorough=3300)),
         ],
@@ -176,7 +176,7 @@ CHECKS = {
     "C04": dict(
         level="model_checking",
         rule="part 1: selector form(6: matchLabels, In, NotIn, Exists, generated, empty) x object labels(3) x owner-reference list(6) x object deleting(2) x cached parent alive/deleting x live parent(4: same, deleting, replaced UID, gone) x children and ControllerRevisions x desired-child labels match/no-match (with selector generation: a foreign controller-uid label) x the live object's other owner references diverging from the cached ones (one added / one removed since observed: neither dropped nor resurrected), one real sync each; "
-             "part 2: two parents with the same selector adopt one orphan concurrently - all interleavings at API-request granularity with at most 2 preemptions (thorough: unbounded) under the cooperative scheduler; plus the adoption re-check itself failing (500 / 429 / timeout on the uncached parent read) with a second candidate in the same claim pass",
+             "part 2: two parents with the same selector adopt one orphan concurrently - all interleavings at API-request granularity with at most 2 preemptions (thorough: unbounded) under the cooperative scheduler; plus the adoption re-check itself failing (500 / 429 / timeout on the uncached parent read) with a second candidate in the same claim pass; live owner list taken over by another parent (one reference, not ours)",
         units=[
             dict(pkg=COMPOSITE, test="TestVerifC04", shards=dict(quick=4, thorough=8), budget=dict(quick=300, thorough=1800)),
         ],
@@ -222,7 +222,7 @@ CHECKS = {
     "C20": dict(
         level="model_checking",
         rule="explicit-state BFS over sequences of CompositeController / DecoratorController events through the real Metacontroller.Reconcile: create, spec-changing update, no-op (metadata-only) update, delete, with 18 (decorator 16) spec variants = 2 plain + 8 valid optional-webhook-field variants (every ETag field set or unset, timeout zero/negative, strict, service+path) + 8 (6) configurations that cannot start; "
-             "one name with the full alphabet to depth 3 (thorough 4; the frontier empties = any number of further events), two names with a reduced alphabet to depth 3 (thorough 5, full alphabet 3); state = stored spec + running spec per name; after every event: instance set, specs, restart/no-op identity, stopped instances (queue shut, no handlers), factory refcounts, parent-event wake-up and hook isolation + a stop while the first sync is still waiting for the customize hook: subscriptions to related resources opened by that sync after Stop began must be released; plus: stop while a worker waits for the cache of a related resource whose LIST never succeeds (subscription must be released)",
+             "one name with the full alphabet to depth 3 (thorough 4; the frontier empties = any number of further events), two names with a reduced alphabet to depth 3 (thorough 5, full alphabet 3); state = stored spec + running spec per name; after every event: instance set, specs, restart/no-op identity, stopped instances (queue shut, no handlers), factory refcounts, parent-event wake-up and hook isolation + a stop while the first sync is still waiting for the customize hook: subscriptions to related resources opened by that sync after Stop began must be released; plus: stop while a worker waits for the cache of a related resource whose LIST never succeeds (subscription must be released); spec alphabet includes resyncPeriodSeconds 0 / negative and an empty revisionHistory block",
         units=[
             dict(pkg=COMPOSITE, test="TestVerifC20", shards=dict(quick=8, thorough=16), budget=dict(quick=600, thorough=3000)),
             dict(pkg=DECORATOR, test="TestVerifC20", shards=dict(quick=8, thorough=16), budget=dict(quick=600, thorough=3000)),
